@@ -47,6 +47,7 @@ class FieldObj:
 
 class OperatorReader(PyReader):
     field_classes: dict = {}  # "ScalarField" / "VectorField" -> ClassDef (set by check)
+    system_class = None  # ClassDef of CoordinateSystem (set by check): properties the operators read from a coordinate system are evaluated from their source
 
     def hook_call(self, n, env, fns):
         f = dotted(n.func) or ""
@@ -91,8 +92,18 @@ class OperatorReader(PyReader):
                     key = f"__property__{n.attr}"
                     self.functions[key] = prop
                     return self.call(key, [base])
-            if isinstance(base, Sys) and n.attr == "coord_system":
+            if isinstance(base, Sys) and n.attr in ("coord_system", "_coord_system"):
                 return base
+            d_ = dotted(n)
+            if d_ and d_.split(".")[-2:-1] == ["System"] and n.attr in ("CARTESIAN", "CYLINDRICAL", "SPHERICAL") and d_.split(".")[0] in ("self", "CoordinateSystem"):
+                return ("kind", n.attr)
+            if isinstance(base, Sys) and self.system_class is not None and n.attr not in ("coord_system_type", "_coord_system_type"):
+                prop = next((m_ for m_ in self.system_class.body if isinstance(m_, ast.FunctionDef) and m_.name == n.attr
+                             and any(dotted(d) == "property" for d in m_.decorator_list)), None)
+                if prop is not None:
+                    key = f"__sysproperty__{n.attr}"
+                    self.functions[key] = prop
+                    return self.call(key, [base])
         return super().ev(n, env, fns)
 
 
@@ -158,6 +169,8 @@ def check(run: Run) -> None:
     for cname, mname in (("ScalarField", "symplyphysics.core.fields.scalar_field"), ("VectorField", "symplyphysics.core.fields.vector_field")):
         cm = run.src.need(mname)
         OperatorReader.field_classes[cname] = next((c for c in cm.tree.body if isinstance(c, ast.ClassDef) and c.name == cname), None)
+    csm_ = run.src.need("symplyphysics.core.coordinate_systems.coordinate_systems")
+    OperatorReader.system_class = next((c for c in csm_.tree.body if isinstance(c, ast.ClassDef) and c.name == "CoordinateSystem"), None)
     for stored in ("callable", "value"):
       STORED[0] = stored
       for system, coords in SYSTEMS.items():
